@@ -7,6 +7,7 @@ afterwards. `C08_adequate`: the evaluator model computes exactly that relation, 
 context and log. Proofs: Proofs/EvalOps, Proofs/EvalOrder.
 -/
 import EvalexprVerif.Proofs.EvalOrder
+import EvalexprVerif.Proofs.EvalOnce
 
 namespace Evalexpr.Spec.C08
 open Evalexpr Evalexpr.Spec
@@ -34,5 +35,118 @@ theorem C08_no_short_circuit_example :
     let ctx : Ctx := .hashMap { funs := [(['f'], fun v => .ok v)] }
     let tree : Node := ⟨.and, [⟨.const (.boolean false), []⟩, ⟨.fn ['f'], [⟨.const (.int 1), []⟩]⟩]⟩
     (tree.evalMut ⟨ctx, []⟩).2.log = [(['f'], .int 1)] := Evalexpr.Spec.C08_no_short_circuit_example
+
+/-! ### "exactly once": counting theorems (definitions in Spec/Once.lean, proofs in Proofs/EvalOnce.lean)
+
+`callSites c n`: identifiers of the nodes `.fn id` of `n` with `c.userFn id = some _` (the
+user-function application sites), in post-order; `fnCalls c n`: their number. The call log records
+one entry per invocation of a user function, so comparing the log with `callSites` counts
+executions: none skipped (no short-circuit), none repeated, in source order. -/
+
+/-- a context for the examples: `f` is the identity, `bad` fails, and `typeof` shadows the builtin
+of that name by answering `FunctionIdentifierNotFound` (finding K2: the builtin then runs) -/
+def exCtx : Ctx := .hashMap { funs := [
+  (['f'], fun v => .ok v),
+  (['b', 'a', 'd'], fun _ => .error (.customMessage ['n', 'o'])),
+  (cl!"typeof", fun _ => .error (.functionIdentifierNotFound cl!"typeof"))] }
+def exLit (i : Int64) : Node := ⟨.const (.int i), []⟩
+def exCall (id : Str) (arg : Node) : Node := ⟨.fn id, [arg]⟩
+
+/-- **C08 (functions are fixed)**: evaluation can bind variables but never defines, removes or
+replaces a user function, and never flips the builtin switch — so "the user-function application
+sites of a tree" means the same thing before, during and after its evaluation -/
+theorem C08_userFns_preserved (n : Node) (s : St) :
+    (∀ id, (n.evalMut s).2.ctx.userFn id = s.ctx.userFn id) ∧
+      (n.evalMut s).2.ctx.builtinsDisabled = s.ctx.builtinsDisabled :=
+  ⟨userFns_preserved n s, builtinsDisabled_preserved n s⟩
+theorem C08_userFns_preserved_RO (n : Node) (s : St) :
+    (∀ id, (n.evalRO s).2.ctx.userFn id = s.ctx.userFn id) ∧
+      (n.evalRO s).2.ctx.builtinsDisabled = s.ctx.builtinsDisabled :=
+  ⟨userFns_preserved_RO n s, builtinsDisabled_preserved_RO n s⟩
+/-- `f = 1` binds the variable `f` and leaves the function `f` in place -/
+example :
+    let r := (Node.mk .assign [⟨.varWrite ['f'], []⟩, exLit 1]).evalMut ⟨exCtx, []⟩
+    resOk r.1 = true ∧ (r.2.ctx.getValue ['f']).isSome = true ∧
+      (r.2.ctx.userFn ['f']).isSome = true := by
+  decide
+
+/-- **C08 (exactly once, count)**: a successful evaluation makes exactly as many user-function
+calls as the tree has user-function application sites -/
+theorem C08_once_count (n : Node) (s s' : St) (v : Value) (h : n.evalMut s = (.ok v, s')) :
+    s'.log.length = s.log.length + fnCalls s.ctx n :=
+  Evalexpr.Spec.C08_once_count n s s' v h
+theorem C08_once_count_RO (n : Node) (s s' : St) (v : Value) (h : n.evalRO s = (.ok v, s')) :
+    s'.log.length = s.log.length + fnCalls s.ctx n :=
+  Evalexpr.Spec.C08_once_count_RO n s s' v h
+/-- `f(false) && f(true)`: two sites, two calls, although the left operand decides the result;
+the builtin call in `typeof(1)` without a shadowing function is not a site -/
+example :
+    let tree : Node :=
+      ⟨.and, [exCall ['f'] ⟨.const (.boolean false), []⟩,
+        exCall ['f'] ⟨.const (.boolean true), []⟩]⟩
+    fnCalls exCtx tree = 2 ∧ (tree.evalMut ⟨exCtx, []⟩).2.log.length = 2 ∧
+      resOk (tree.evalMut ⟨exCtx, []⟩).1 = true ∧
+      fnCalls .emptyWithBuiltins (exCall cl!"typeof" (exLit 1)) = 0 := by
+  decide
+
+/-- **C08 (exactly once, order)**: on success the names in the call log are, after those already
+there, exactly the application sites of the tree in post-order: arguments before the function that
+takes them, siblings left to right -/
+theorem C08_once_order (n : Node) (s s' : St) (v : Value) (h : n.evalMut s = (.ok v, s')) :
+    s'.log.map (·.1) = s.log.map (·.1) ++ callSites s.ctx n :=
+  Evalexpr.Spec.C08_once_order n s s' v h
+theorem C08_once_order_RO (n : Node) (s s' : St) (v : Value) (h : n.evalRO s = (.ok v, s')) :
+    s'.log.map (·.1) = s.log.map (·.1) ++ callSites s.ctx n :=
+  Evalexpr.Spec.C08_once_order_RO n s s' v h
+/-- `typeof((f(1), max(2, 3)))` with `typeof` shadowed (K2): the argument's `f` first, then
+`typeof`, logged once although the builtin runs after it; `max` is a builtin and not a site -/
+example :
+    let tree : Node :=
+      exCall cl!"typeof"
+        ⟨.tuple, [exCall ['f'] (exLit 1), exCall cl!"max" ⟨.tuple, [exLit 2, exLit 3]⟩]⟩
+    callSites exCtx tree = [['f'], cl!"typeof"] ∧
+      (tree.evalMut ⟨exCtx, []⟩).2.log.map (·.1) = [['f'], cl!"typeof"] ∧
+      resOk (tree.evalMut ⟨exCtx, []⟩).1 = true := by
+  decide
+
+/-- **C08 (failure: a prefix)**: when the evaluation fails, the calls made are an initial segment of
+the application sites in post-order: in source order, none twice, none after the failure point -/
+theorem C08_once_prefix (n : Node) (s s' : St) (e : Err) (h : n.evalMut s = (.error e, s')) :
+    ∃ p, p <+: callSites s.ctx n ∧ s'.log.map (·.1) = s.log.map (·.1) ++ p :=
+  Evalexpr.Spec.C08_once_prefix n s s' e h
+theorem C08_once_prefix_RO (n : Node) (s s' : St) (e : Err) (h : n.evalRO s = (.error e, s')) :
+    ∃ p, p <+: callSites s.ctx n ∧ s'.log.map (·.1) = s.log.map (·.1) ++ p :=
+  Evalexpr.Spec.C08_once_prefix_RO n s s' e h
+/-- whatever the result, no site is executed more than once -/
+theorem C08_at_most_once (n : Node) (s : St) :
+    (n.evalMut s).2.log.length ≤ s.log.length + fnCalls s.ctx n :=
+  Evalexpr.Spec.C08_at_most_once n s
+/-- `f(1) + (bad(2) + f(3))`: `f`, then `bad`, which fails; the second `f` is never called -/
+example :
+    let tree : Node :=
+      ⟨.add, [exCall ['f'] (exLit 1), ⟨.add, [exCall cl!"bad" (exLit 2), exCall ['f'] (exLit 3)]⟩]⟩
+    callSites exCtx tree = [['f'], cl!"bad", ['f']] ∧
+      (tree.evalMut ⟨exCtx, []⟩).2.log.map (·.1) = [['f'], cl!"bad"] ∧
+      resOk (tree.evalMut ⟨exCtx, []⟩).1 = false := by
+  decide
+
+/-- **C08 (operators applied once)**: the evaluator instrumented with a counter of
+`Operator.evalMut` invocations computes the same result and state; on success the counter is the
+number of nodes of the tree (with `C08_adequate`: one application per node), and it never exceeds
+that number -/
+theorem C08_ops_once (n : Node) (s : St) :
+    ((evalMutCount n s).1, (evalMutCount n s).2.1) = n.evalMut s ∧
+      (evalMutCount n s).2.2 ≤ nodeSize n ∧
+      (∀ v s', n.evalMut s = (.ok v, s') → (evalMutCount n s).2.2 = nodeSize n) :=
+  ⟨evalMutCount_result n s, C08_ops_at_most_once n s,
+    fun v s' h => Evalexpr.Spec.C08_ops_once n s s' v h⟩
+/-- `f(1) + f(2)`: five nodes, five applications; `bad(1) + f(2)`: the failing `bad` node is the
+second and last application -/
+example :
+    let ok : Node := ⟨.add, [exCall ['f'] (exLit 1), exCall ['f'] (exLit 2)]⟩
+    let ko : Node := ⟨.add, [exCall cl!"bad" (exLit 1), exCall ['f'] (exLit 2)]⟩
+    nodeSize ok = 5 ∧ (evalMutCount ok ⟨exCtx, []⟩).2.2 = 5 ∧
+      nodeSize ko = 5 ∧ (evalMutCount ko ⟨exCtx, []⟩).2.2 = 2 := by
+  decide
 
 end Evalexpr.Spec.C08
